@@ -164,4 +164,8 @@ def gen_and_prove(ctx, spec_vo, prop_v):
             break
         del ctx.broken[nb:]
         ctx.info.append("coq/Gen was regenerated from another tree during the build; retried")
+    why = (getattr(ctx, "gen_failures", None) or {}).get("TargetWiring")
+    if why:
+        ctx.broken.append(("translator: the generator chains / chunk loop of command/*.go have a shape tools/gen/"
+                           "targets_wiring.go does not understand: " + why, ""))
     return gen_ok, model_ok, proof_ok
